@@ -41,7 +41,7 @@ var (
 )
 
 // SchemaRoots returns the shared schema objects for the region of pre-existing state.
-func SchemaRoots() []interface{} { return []interface{}{&schemaFields, &schemaTags} }
+func SchemaRoots() []interface{} { return []interface{}{&schemaFields, &schemaTags, &sharedSegments} }
 
 func (mapper) FieldDimensions(m *influxql.Measurement) (map[string]influxql.DataType, map[string]struct{}, error) {
 	return schemaFields, schemaTags, nil
@@ -58,6 +58,13 @@ func (mapper) MapType(m *influxql.Measurement, f string) influxql.DataType {
 		return influxql.Tag
 	}
 	return influxql.Unknown
+}
+
+var sharedSegments = []string{"my db", "auto\"gen", "cpu load"}
+
+// Reset puts the long-lived shared values back to their initial contents (same objects): executions are independent.
+func Reset() {
+	sharedSegments[0], sharedSegments[1], sharedSegments[2] = "my db", "auto\"gen", "cpu load"
 }
 
 var ParseTexts = []string{
@@ -124,7 +131,9 @@ func Bodies() []*Body {
 	})
 	add("parse error", false, func(*Env) string { _, err := influxql.ParseStatement("SELECT FROM 'x"); return fmt.Sprint(err) })
 	add("Quote/IdentNeedsQuotes", false, func(*Env) string {
-		return influxql.QuoteString("it's\n\\") + influxql.QuoteIdent("my db", "", "select") + fmt.Sprint(influxql.IdentNeedsQuotes("select"), influxql.IdentNeedsQuotes("ok_1"))
+		// the segments are one long-lived slice that every caller spreads into the call (a server's configured default
+		// database and retention policy): quoting reads it
+		return influxql.QuoteString("it's\n\\") + influxql.QuoteIdent("my db", "", "select") + influxql.QuoteIdent(sharedSegments...) + fmt.Sprint(influxql.IdentNeedsQuotes("select"), influxql.IdentNeedsQuotes("ok_1"))
 	})
 	add("Format/ParseDuration", false, func(*Env) string {
 		d, err := influxql.ParseDuration("1h30m")
